@@ -341,7 +341,8 @@ func (k Keeper) ModuleServiceRequest(ctx sdk.Context, input string) (result, out
 	valueData := value.Data
 	valueTime := value.Timestamp
 
-	if time.Since(valueTime) > time.Minute*5 {
+	// freshness is judged against the block time, never the host clock (state transitions must not depend on it)
+	if ctx.BlockTime().Sub(valueTime) > time.Minute*5 {
 		result = `{"code":"402","message":"all values expired"}`
 		return
 	}
